@@ -88,3 +88,27 @@ def replay(ctx, verdict):
 
 def search(ctx, verdict, problems):
     return winlib.search(ctx, verdict, problems)
+
+
+# ---- relay level: Model/Copy.v (common.Copy, the uplink of client.RouteTCP) vs the real code (tools/props/relaylib.py)
+import relaylib
+
+EXTRACT_FILES = EXTRACT_FILES + ['Extract/Relay']
+TRUSTED = TRUSTED + ['relay level: hand-written model coq/Model/Copy.v of common.Copy (generic loop, the two delegations, the deferred closes) and of the uplink of client.RouteTCP (ReadAtLeast + Stream.Write + Stream.ReadFrom); the behaviour of the connections (what each Read / Write call returns) is an input of the model and is scripted by the harness (harness/common/relay_copy_test.go: every call recorded, with a copy of each slice taken at the call); the far end of a relayed stream and the session pair in between are the real multiplex.Session objects']
+MANIFEST = dict(MANIFEST,
+                level_text=MANIFEST['level_text'] + ' Relay level (Model/Copy.v): for EVERY script of Read results and Write results, C01_copy_forwards_exactly (what common.Copy hands to dst.Write is byte for byte what the consumed src.Read calls returned), C01_copy_complete (a source ending in EOF into a sink that takes everything arrives complete, err = nil, written = bytes forwarded), C01_copy_closes_both, C01_copy_nil_only_after_eof, C01_relay_uplink_prefix (RouteTCP uplink) and the composition C01_relay_end_to_end with the session-pair theorem: what the far connection is handed is a prefix of what the local peer sent, over every label sequence and every behaviour of the three connections.',
+                level_note=MANIFEST['level_note'] + ' The relay model is compared with the real common.Copy on scripted connections (every call, count and error class) and with the real client.RouteTCP feeding a real Session pair from a scripted local connection.')
+_corr_before_relay = correspondence
+_replay_before_relay = replay
+
+
+def correspondence(ctx, verdict, pr):
+    res = _corr_before_relay(ctx, verdict, pr)
+    res['broken'] += relaylib.run_copy(ctx, verdict, 'C01')
+    return res
+
+
+def replay(ctx, verdict):
+    if str(ctx.replay.get('kind', '')).startswith('relay'):
+        return relaylib.replay(ctx, verdict, 'C01')
+    return _replay_before_relay(ctx, verdict)
